@@ -141,6 +141,11 @@ func genC04(tier string, rng *rand.Rand, shard, nshards int, emit emitter) {
 						if tier == "thorough" || rng.Intn(2) == 0 {
 							ops = append(ops, accOp(rng, name, a))
 						}
+						if name != "reg" && name != "dreg" && name != "qreg" && rng.Intn(4) == 0 {
+							// the same read through a field definition (Field.ExtractFrom), which leaves the order to the view
+							// when the field does not set one
+							ops = append(ops, "F"+accOp(rng, name, a))
+						}
 					}
 					if len(ops) == 0 {
 						ops = append(ops, accOp(rng, "u16", a))
@@ -215,9 +220,17 @@ func genC13(tier string, rng *rand.Rand, shard, nshards int, emit emitter) {
 		// a permutation of the same reads in the second half of the sequence
 		if rng.Intn(2) == 0 {
 			perm := rng.Perm(len(ops))
+			if rng.Intn(3) == 0 {
+				// ... after the view has been configured again (also with "no order" = 0)
+				ops = append(ops, fmt.Sprintf("wbo@%d", append([]int{0, 0}, orders...)[rng.Intn(len(orders)+2)]))
+			}
 			for _, p := range perm {
 				ops = append(ops, ops[p])
 			}
+		}
+		if rng.Intn(6) == 0 {
+			// configured (again) before anything is read
+			ops = append([]string{fmt.Sprintf("wbo@%d", append([]int{0, 0}, orders...)[rng.Intn(len(orders)+2)])}, ops...)
 		}
 		order := orders[rng.Intn(len(orders))]
 		sp := []byte{}
